@@ -5,5 +5,7 @@ open BeffVerif.C04
 #print axioms charPos_line_in_file
 #print axioms charPos_line_mono
 #print axioms charPos_col_bounded
+#print axioms charPos_col_in_line
+#print axioms units_le
 #print axioms model_outcome_total
 #print axioms modelled_errors_are_diagnostics
